@@ -682,7 +682,9 @@ func main() {
 		}()
 		ids := func(idx int) func() string {
 			n := 0
-			return func() string { n++; return fmt.Sprintf("c%d-%d", idx, n) }
+			// every few ids carry characters that jsoniter's string encoder escapes in the answer frames
+			special := []string{"", "", "", `"q"`, "<&>", "é\u2028", "a\\b", "tab\there", "\x01\x7f"}
+			return func() string { n++; return fmt.Sprintf("c%d-%d%s", idx, n, special[(idx+n)%len(special)]) }
 		}
 		cfgs := allConfigs()
 
